@@ -124,6 +124,9 @@ type Machine struct {
 	subKeys  map[string]*Obj
 	syncMaps map[string]*MapV
 	afterFuncs map[*Obj]*afterFuncState
+	vtimers    map[*Obj]*vTimer
+	vtimerList []*vTimer
+	vnow       int64
 	builders map[string]*StrV
 	softViol []*Violation // known findings met on this path (the path continues)
 	spec     bool // speculative (if-conversion) evaluation in progress
@@ -569,6 +572,7 @@ func (m *Machine) resetPath() {
 	m.subKeys = map[string]*Obj{}
 	m.syncMaps = map[string]*MapV{}
 	m.afterFuncs = nil
+	m.vtimers, m.vtimerList, m.vnow = nil, nil, 0
 	m.builders = map[string]*StrV{}
 	m.raceOn = false
 	if m.funcs == nil {
